@@ -117,7 +117,7 @@ func runProp(t *testing.T, p propDef) {
 		}
 		switch {
 		case f.Status == "open" && len(ds) > 0:
-			c.KnownReproduced(f.ID, f.What+" ["+ds[0].String()+"]")
+			c.KnownReproduced(f.ID, f.What+" [still reproduces: "+ds[0].Kind+"]")
 		case f.Status == "open":
 			c.KnownGone(f.ID)
 		case f.Status == "fixed" && len(ds) > 0:
